@@ -1,6 +1,7 @@
 package main
 
 import (
+	"go/token"
 	"regexp"
 	"fmt"
 	"go/types"
@@ -575,6 +576,7 @@ func (c *Ctx) freshVal(s *State, prefix string, t types.Type) Val {
 		for i := 0; i < u.NumFields(); i++ {
 			sv.F = append(sv.F, c.freshVal(s, prefix+"."+u.Field(i).Name(), u.Field(i).Type()))
 		}
+		c.structBoundAssume(s, sv)
 		return sv
 	case *types.Array:
 		es, ok := c.ar.sortOfScalar(u.Elem())
@@ -631,8 +633,49 @@ func (c *Ctx) sliceWF(sv SliceV) string {
 	return fmt.Sprintf("(and (<= 0 %s) (<= 0 %s) (<= %s %s) (<= %s 1099511627776) (<= %s 1099511627776) (=> (= %s rnil) (= %s 0)))", sv.Off, sv.Len, sv.Len, sv.Cap, sv.Off, sv.Cap, sv.Arr, sv.Cap)
 }
 
+// fieldBound: the declared upper bound (type invariant) of field fname of the struct type named owner, if the type
+// belongs to another package than the function under verification (inside its own package the bound is proved, not
+// assumed).
+func (c *Ctx) fieldBound(owner, fname string) (int64, bool) {
+	for _, pc := range c.eng.db.Pkgs {
+		for _, fb := range pc.FieldBounds {
+			if shortPkg(pc.Pkg)+"."+fb.Type == owner && fb.Field == fname {
+				if c.fn != nil && c.fn.Pkg != nil && c.fn.Pkg.Pkg.Path() == pc.Pkg {
+					return 0, false
+				}
+				c.assumptions["type invariant "+owner+"."+fname+" <= "+fmt.Sprint(fb.Max)+" (unexported field; proved for the values returned by the functions of its package that are under contract)"] = true
+				return fb.Max, true
+			}
+		}
+	}
+	return 0, false
+}
+
+// structBoundAssume assumes the declared field bounds of a struct value.
+func (c *Ctx) structBoundAssume(s *State, x StructV) {
+	st := structOf(x.Ty)
+	if st == nil || namedOf(x.Ty) == nil {
+		return
+	}
+	owner := typeName(x.Ty)
+	for i := 0; i < st.NumFields() && i < len(x.F); i++ {
+		sc, ok := x.F[i].(Scalar)
+		if !ok {
+			continue
+		}
+		if ii, isInt := isIntType(sc.Ty); isInt {
+			if max, ok := c.fieldBound(owner, st.Field(i).Name()); ok && !strings.Contains(sc.T, "!q") {
+				c.assume(s, c.ar.cmp(token.LEQ, sc.T, c.ar.litI(max, ii), ii))
+			}
+		}
+	}
+}
+
 // typeRangeAssume adds machine-range assumptions for every int component of v.
 func (c *Ctx) typeRangeAssume(s *State, v Val) {
+	if sv, ok := v.(StructV); ok {
+		c.structBoundAssume(s, sv)
+	}
 	switch x := v.(type) {
 	case Scalar:
 		if ii, ok := isIntType(x.Ty); ok {
